@@ -176,6 +176,8 @@ var forkSkips = map[string]string{
 	"(*http2.ClientConn).closeIfIdle":         "the fork predates upstream's closedOnIdle fix (golang/go#70515) in the client transport, which the proxy does not use",
 	"(*http2.ClientConn).idleStateLocked":     "same upstream transport fix (closedOnIdle)",
 	"(*http2.clientConnReadLoop).cleanup":     "same upstream transport fix (closedOnIdle / idleTimeout-bounded unusedWaitTime)",
+	"(*http2.clientConnReadLoop).processWindowUpdate": "fix 9fd42ae (finding D7): the overflow edge calls endStreamErrorLocked instead of re-locking cc.mu through endStreamError, as x/net does from v0.36 on; its decisions are pinned by the h2_flow_transport table instead",
+	"(*http2.clientConnReadLoop).endStreamErrorLocked": "added by fix 9fd42ae (finding D7); not in x/net v0.34.0",
 	"http2.init":                              "package initialiser (synthetic and declared init share the name); package-level tables are compared by value instead",
 }
 
